@@ -21,7 +21,7 @@ ASSUMPTIONS = [
 REQUIRED = {t: ['event:bilform-acausal', 'event:bilform-causal', 'event:bilform-time-touch', 'path:inline', 'path:serial', 'path:pool',
                 'matrix:rectangular', 'matrix:asymmetric-pair-seen', 'eval:evaluate', 'eval:evaluate_exact', 'eval:potential',
                 'eval:t-at-start', 'eval:t-at-end', 'eval:t-before-start', 'switch:exact', 'switch:quad', 'event:tiny-positive',
-                'curve:UnitSquare', 'curve:PiSquare', 'curve:LShape', 'curve:Circle', 'curve:UnitInterval']
+                'curve:UnitSquare', 'curve:PiSquare', 'curve:LShape', 'curve:Circle', 'curve:UnitInterval', 'source:repo-test-suite']
             for t in ('quick', 'thorough')}
 TIMEOUT = {'quick': 900, 'thorough': 5400}
 CURVES = ['UnitSquare', 'PiSquare', 'LShape', 'Circle', 'UnitInterval']
@@ -34,6 +34,7 @@ def plan(tier, seed):
         for k in range(n_mesh):
             specs.append({'name': 'mesh-%s-%d' % (c, k), 'curve': c, 'rseed': seed * 389 + k,
                           'n_ops': (24 if tier == 'quick' else 60) + 8 * k, 'n_eval': 40 if tier == 'quick' else 200})
+    specs.append({'name': 'suite-sl-tests', 'mode': 'suite', 'files': ['src/h_h2_error_estimator_test.py', 'src/error_estimator_test.py']})
     return specs
 
 
@@ -42,6 +43,9 @@ def ekey(e):
 
 
 def run_shard(spec, acc):
+    if spec.get('mode') == 'suite':
+        from ..workloads.suite import run_suite
+        return run_suite(acc, 'C04', spec['files'])
     import multiprocessing as mp
     import numpy as np
     from ..monitor import repo_frame
